@@ -13,7 +13,7 @@
 From AV Require Import Base.Prelude Gen.ReaderPrims Model.Reader Model.ReaderExt Proofs.ReaderProofs
   Model.Layout Gen.TableLayouts Model.Tables Model.Cff
   Proofs.LayoutProofs Proofs.RecordProofs Proofs.TableProofs Proofs.ArrayTableProofs Proofs.CffProofs
-  Proofs.RefusalProofs.
+  Proofs.RefusalProofs Proofs.NameProofs Proofs.GlyphProofs.
 Open Scope Z_scope.
 
 (* ===== 1. the generic theorem: any straight-line reader/writer pair that passes `compat` *)
@@ -133,6 +133,27 @@ Theorem C15_loca_long_roundtrip : forall offs rest c,
   exists c', loca_read c (len offs - 1) 1 = Ok (offs, c') /\ advanced c c' rest.
 Proof. exact loca_long_roundtrip. Qed.
 Print Assumptions C15_loca_long_roundtrip.
+
+(* name, owned: owned::NameTable::write into a fresh buffer, then NameTable::read and
+   owned::NameTable::try_from: the records (ids + string bytes) and the language tags come back.
+   (ids_ok: the four ids are u16 values) *)
+Theorem C15_name_owned_roundtrip : forall recs lts b rest c,
+  Forall (fun r => ids_ok (fst r)) recs ->
+  name_owned_write 0 recs lts = Ok b ->
+  cgood c -> at_bytes c (b ++ rest) ->
+  exists n c', name_read c = Ok (n, c') /\ name_to_owned n = Ok (recs, lts).
+Proof. exact name_owned_roundtrip. Qed.
+Print Assumptions C15_name_owned_roundtrip.
+
+(* glyf simple glyphs (after the two fixes): whenever SimpleGlyph::write returns Ok for a glyph
+   within format limits (i16 box and coordinates, u16 end points, at most 32767 contours, as many
+   points as the last end point addresses), Glyph::read returns the same glyph with the flags reduced
+   to ON_CURVE_POINT — the writer's normalisation —, in debug and release arithmetic *)
+Theorem C15_simple_glyph_roundtrip : forall m g b rest c,
+  glyph_ok g -> simple_glyph_write g = Ok b -> cgood c -> at_bytes c (b ++ rest) ->
+  exists c', glyph_read m c = Ok (Some (glyph_norm g), c') /\ advanced c c' rest.
+Proof. exact simple_glyph_roundtrip. Qed.
+Print Assumptions C15_simple_glyph_roundtrip.
 
 (* ===== 3. CFF *)
 (* DICT integer operands: for ALL i32 *)
@@ -284,3 +305,38 @@ Proof. vm_compute. split; reflexivity. Qed.
 
 Example glyph_delta_refused : write_deltas 0 [32767; -2] = Err BadValue /\ write_deltas 0 [32767; -1] = Ok [127; 255; 128; 0].
 Proof. vm_compute. split; reflexivity. Qed.
+
+(* the declared normalisation itself is pinned: the writer's version numbers on the current source *)
+Theorem C15_os2_declared_versions :
+  os2_wver_v5 = 5 /\ os2_wver_v2 = 4 /\ os2_wver_v1 = 1 /\ os2_wver_v0 = 0 /\
+  os2_v0_min_size = 78 /\ os2_v1_min_version = 1 /\ os2_v2_min_version = 2 /\ os2_v5_min_version = 5 /\
+  maxp_v1_version = 65536.
+Proof. vm_compute. repeat split; reflexivity. Qed.
+Print Assumptions C15_os2_declared_versions.
+
+Example name_owned_example :
+  let recs := [([3; 1; 1033; 1], [0; 65; 0; 66]); ([1; 0; 0; 2], [67])] in
+  match name_owned_write 0 recs [[0; 101]] with
+  | Ok b => (n <- name_read (table_ctxt b) ;; name_to_owned (fst n)) = Ok (recs, [[0; 101]]) /\ len b = 43
+  | _ => False
+  end.
+Proof. vm_compute. split; reflexivity. Qed.
+
+Definition glyph_ex : simple_glyph :=
+  {| sg_bbox := [-5; -6; 7; 8]; sg_endpts := [1; 3]; sg_instr := [1; 2];
+     sg_coords := [(1, (10, 20)); (54, (-30, 40)); (1, (50, -60)); (0, (70, 80))] |}.
+Example glyph_example_ok : glyph_ok glyph_ex.
+Proof.
+  unfold glyph_ok, glyph_ex; cbn [sg_bbox sg_endpts sg_instr sg_coords]. split; [|split; [|split; [|split]]].
+  - cbn [rec_ok]. repeat split.
+  - repeat (constructor; [reflexivity|]). constructor.
+  - vm_compute. discriminate.
+  - repeat (constructor; [unfold i16v; cbn [fst snd]; lia|]). constructor.
+  - reflexivity.
+Qed.
+Example glyph_example :
+  match simple_glyph_write glyph_ex with
+  | Ok b => (r <- glyph_read Debug (table_ctxt b) ;; Ok (fst r)) = Ok (Some (glyph_norm glyph_ex))
+  | _ => False
+  end.
+Proof. vm_compute. reflexivity. Qed.
